@@ -2,6 +2,8 @@ import RCE.Driver.Walk
 import RCE.Driver.Tables
 import RCE.Driver.SearchD
 import RCE.Driver.UciD
+import RCE.Driver.LegalD
+import RCE.Driver.ConcD
 
 def main (args : List String) : IO UInt32 := do
   match args with
@@ -10,4 +12,6 @@ def main (args : List String) : IO UInt32 := do
   | ["search"] => RCE.Driver.runSearch 20
   | ["search", n] => RCE.Driver.runSearch n.toNat!
   | ["uci"] => RCE.Driver.runUci
+  | ["legal"] => RCE.Driver.runLegal
+  | ["conc"] => RCE.Driver.runConc
   | _ => IO.eprintln "usage: driver walk|tables|search|uci < stream"; return 2
